@@ -63,6 +63,32 @@ def circuits(ctx):
         if g.nodes[w]["type"] != "buf":
             g.add_edge(a, w)
         yield "INVFOLD", proj_graph(g, "invfold")
+    # operand names whose `_`-joins coincide (a & b_a  and  a_b & a both spell and_a_b_a) on inverting / wide gates, which the
+    # behavioural form writes as expressions with an inner gate the reader has to name
+    for j in range(16 if ctx.quick else 120):
+        r = ctx.rng("C03join", j)
+        g = nx.DiGraph()
+        for n in ("a", "b_a", "a_b", "b", "c"):
+            g.add_node(n, type="input", output=False)
+        t1, t2 = r.choice([("nand", "nand"), ("nor", "nor"), ("xnor", "xnor"), ("and", "and"), ("nand", "and")])
+        o1, o2 = r.sample(["r1", "r2", "y", "z", "q"], 2)
+        g.add_node(o1, type=t1, output=True)
+        g.add_node(o2, type=t2, output=True)
+        g.add_edges_from([("a", o1), ("b_a", o1), ("a_b", o2), ("a", o2)])
+        if r.random() < 0.5:
+            g.add_edges_from([("c", o1), ("c", o2)])
+        yield "JOIN", proj_graph(g, "join")
+    # one net on two input pins of one instance
+    for j in range(6 if ctx.quick else 40):
+        r = ctx.rng("C03pins", j)
+        import circuitgraph as cg
+
+        c = gen.rand_circuit(r, n_in=r.randint(2, 3), n_gates=r.randint(2, 5), max_fanin=3)
+        c.add("ffq", "buf", output=True)
+        nets = sorted(n for n in c.nodes() if n != "ffq")
+        rs = r.choice(nets)
+        c.add_blackbox(cg.BlackBox("srff", ["R", "S", "CK"], ["Q"]), "u_sr", {"R": rs, "S": rs, "CK": r.choice(nets), "Q": "ffq"})
+        yield "PINS", proj(c)
     for j in range(80 if ctx.quick else 2000):
         r = ctx.rng("C03g3", j)
         c = gen.rand_circuit(r, n_in=r.randint(1, 4), n_gates=r.randint(1, 9), max_fanin=4, consts=0.3, xconst=0.15, out_is_input=0.3, loaded_in_out=0.15)
